@@ -19,9 +19,11 @@ VARIABLES sfiles,   \* source: sequence of [name, delta]
           thead, trev,
           tmode,    \* "none" | "WO" | "RW"
           reloaded, \* the task reached reloadAndVerify for this add
-          talive, pc, acked, nextW, nsnap
+          talive, pc, acked, nextW, nsnap,
+          joining   \* addReplica is between the snapshot and the attachment of the target (only with
+                    \* "addUnlockedSnapshot": the controller lock released in between)
 
-vars == <<sfiles, shead, srev, tfiles, tchain, thead, trev, tmode, reloaded, talive, pc, acked, nextW, nsnap>>
+vars == <<sfiles, shead, srev, tfiles, tchain, thead, trev, tmode, reloaded, talive, pc, acked, nextW, nsnap, joining>>
 
 Names(fs) == [i \in 1..Len(fs) |-> fs[i].name]
 SImage == UNION ({sfiles[i].delta : i \in 1..Len(sfiles)} \cup {shead})
@@ -31,6 +33,7 @@ Init ==
     /\ sfiles = <<>> /\ shead = {} /\ srev = 1
     /\ tfiles = << >> /\ tchain = <<>> /\ thead = {} /\ trev = 1
     /\ tmode = "none" /\ reloaded = FALSE /\ talive = TRUE /\ pc = 0 /\ acked = {} /\ nextW = 1 /\ nsnap = 0
+    /\ joining = FALSE
 
 Write ==
     /\ nextW <= MaxW
@@ -39,20 +42,29 @@ Write ==
        THEN thead' = thead \cup {nextW} /\ trev' = IF tmode = "RW" THEN trev + 1 ELSE trev
        ELSE UNCHANGED <<thead, trev>>
     /\ acked' = acked \cup {nextW} /\ nextW' = nextW + 1
-    /\ UNCHANGED <<sfiles, tfiles, tchain, tmode, reloaded, talive, pc, nsnap>>
+    /\ UNCHANGED <<sfiles, tfiles, tchain, tmode, reloaded, talive, pc, nsnap, joining>>
 
 \* addReplica: the same automatic snapshot on both sides, target attached WO
 Add ==
-    /\ tmode = "none" /\ talive /\ nsnap < MaxSnap
+    /\ tmode = "none" /\ talive /\ nsnap < MaxSnap /\ ~joining
     /\ LET n == nsnap + 1
        IN /\ sfiles' = Append(sfiles, [name |-> n, delta |-> shead]) /\ shead' = {}
           /\ tfiles' = [x \in DOMAIN tfiles \cup {n} |-> IF x = n THEN thead ELSE tfiles[x]]
           /\ tchain' = Append(tchain, n) /\ thead' = {}
           /\ nsnap' = n
-    /\ tmode' = "WO" /\ reloaded' = FALSE
+    /\ reloaded' = FALSE
     \* isRevisionCountAndChainSame: equal counters and equal chains => nothing to copy
     /\ pc' = IF trev = srev /\ tchain' = Names(sfiles') THEN Len(sfiles') ELSE 0
+    /\ IF "addUnlockedSnapshot" \in Bug
+       THEN tmode' = tmode /\ joining' = TRUE      \* the target is attached by a later step
+       ELSE tmode' = "WO" /\ joining' = FALSE
     /\ UNCHANGED <<srev, trev, talive, acked, nextW>>
+
+\* (mutant only) second half of the add: the target joins the writers
+AddJoin ==
+    /\ joining /\ talive
+    /\ tmode' = "WO" /\ joining' = FALSE
+    /\ UNCHANGED <<sfiles, shead, srev, tfiles, tchain, thead, trev, reloaded, talive, pc, acked, nextW, nsnap>>
 
 \* ssync of one snapshot file, oldest first
 SyncFile ==
@@ -60,30 +72,30 @@ SyncFile ==
     /\ LET f == sfiles[pc + 1]
        IN tfiles' = [x \in DOMAIN tfiles \cup {f.name} |-> IF x = f.name THEN f.delta ELSE tfiles[x]]
     /\ pc' = pc + 1
-    /\ UNCHANGED <<sfiles, shead, srev, tchain, thead, trev, tmode, reloaded, talive, acked, nextW, nsnap>>
+    /\ UNCHANGED <<sfiles, shead, srev, tchain, thead, trev, tmode, reloaded, talive, acked, nextW, nsnap, joining>>
 
 \* reload: the target's chain is whatever its head's parents say: the source's snapshots
 Reload ==
     /\ tmode = "WO" /\ talive /\ (pc = Len(sfiles) \/ "reloadEarly" \in Bug)
     /\ tchain' = SubSeq(Names(sfiles), 1, pc)
     /\ reloaded' = TRUE
-    /\ UNCHANGED <<sfiles, shead, srev, tfiles, thead, trev, tmode, talive, pc, acked, nextW, nsnap>>
+    /\ UNCHANGED <<sfiles, shead, srev, tfiles, thead, trev, tmode, talive, pc, acked, nextW, nsnap, joining>>
 
 Verify ==
     /\ tmode = "WO" /\ talive /\ reloaded      \* the task asks for it only after reloadAndVerify's reload
     /\ (tchain = Names(sfiles) \/ "verifySkipsChain" \in Bug)
     /\ tmode' = "RW" /\ trev' = srev
-    /\ UNCHANGED <<sfiles, shead, srev, tfiles, tchain, thead, reloaded, talive, pc, acked, nextW, nsnap>>
+    /\ UNCHANGED <<sfiles, shead, srev, tfiles, tchain, thead, reloaded, talive, pc, acked, nextW, nsnap, joining>>
 
 KillTarget ==
-    /\ talive /\ talive' = FALSE /\ tmode' = "none" /\ pc' = 0 /\ reloaded' = FALSE
+    /\ talive /\ talive' = FALSE /\ tmode' = "none" /\ pc' = 0 /\ reloaded' = FALSE /\ joining' = FALSE
     /\ UNCHANGED <<sfiles, shead, srev, tfiles, tchain, thead, trev, acked, nextW, nsnap>>
 
 RestartTarget ==
     /\ ~talive /\ talive' = TRUE
-    /\ UNCHANGED <<sfiles, shead, srev, tfiles, tchain, thead, trev, tmode, reloaded, pc, acked, nextW, nsnap>>
+    /\ UNCHANGED <<sfiles, shead, srev, tfiles, tchain, thead, trev, tmode, reloaded, pc, acked, nextW, nsnap, joining>>
 
-Next == Write \/ Add \/ SyncFile \/ Reload \/ Verify \/ KillTarget \/ RestartTarget
+Next == Write \/ Add \/ AddJoin \/ SyncFile \/ Reload \/ Verify \/ KillTarget \/ RestartTarget
 Spec == Init /\ [][Next]_vars
 
 \* C07: at (and after) promotion the target is identical to its source
